@@ -172,13 +172,18 @@ def ensure(cfgs):
         return h, outdir, errors
 
 
-def _prune(root, keep, maxn=6):
+def _prune(root, keep, maxn=6, min_age=3600.0):
+    """drop all but the newest caches of other trees; never one touched within the last hour (a parallel selftest
+    run may be reading it)"""
+    import time
     try:
         ds = sorted((os.path.getmtime(os.path.join(root, d)), d) for d in os.listdir(root) if d != keep)
     except OSError:
         return
-    for _, d in ds[:-maxn] if len(ds) > maxn else []:
-        shutil.rmtree(os.path.join(root, d), ignore_errors=True)
+    now = time.time()
+    for mt, d in ds[:-maxn] if len(ds) > maxn else []:
+        if now - mt > min_age:
+            shutil.rmtree(os.path.join(root, d), ignore_errors=True)
 
 
 class Facts(object):
